@@ -76,3 +76,35 @@ fn arity_replay() {
         std::process::exit(3);
     }
 }
+
+// Native replay for the argument-vector bounds check (C07, E3b): VERIF_BOUNDS_NAME is the script
+// name of a built-in procedure, VERIF_BOUNDS_LEN the argument count the solver returned.  The
+// procedure is called from a script with that many arguments, for several kinds of filler
+// values; a panic in the host is the violation.
+#[test]
+fn bounds_replay() {
+    let name = std::env::var("VERIF_BOUNDS_NAME").expect("VERIF_BOUNDS_NAME");
+    let len: usize = std::env::var("VERIF_BOUNDS_LEN").ok().and_then(|x| x.parse().ok()).expect("VERIF_BOUNDS_LEN");
+    if len > 12 {
+        println!("NOT-REPLAYABLE: argument count {} is not something a script writes down", len);
+        return;
+    }
+    let fillers = ["1", "\"s\"", "(list 1 2)", "(vector 1 2)", "(hash)", "#\\a", "1.5", "(lambda (x) x)", "(box 1)", "'sym"];
+    std::panic::set_hook(Box::new(|_| {}));
+    for f in fillers.iter() {
+        let args: Vec<&str> = (0..len).map(|_| *f).collect();
+        let src = format!("({} {})", name, args.join(" "));
+        let src2 = src.clone();
+        let r = std::panic::catch_unwind(std::panic::AssertUnwindSafe(move || {
+            let mut engine = Engine::new();
+            let _ = engine.run("(require-builtin steel/time)".to_string());
+            engine.run(src2).map(|_| ()).map_err(|e| e.to_string())
+        }));
+        if let Err(p) = r {
+            let msg = p.downcast_ref::<String>().cloned().or_else(|| p.downcast_ref::<&str>().map(|s| s.to_string())).unwrap_or_default();
+            println!("OBSERVED: evaluating {} panicked in the host instead of returning an error: {}", src, msg.chars().take(160).collect::<String>());
+            return;
+        }
+    }
+    println!("COMPLETED: ({} ...) with {} arguments returned a value or an error for every filler kind", name, len);
+}
